@@ -47,6 +47,31 @@ class AsmError(Exception):
     pass
 
 
+def discover_variants():
+    """every macro a file tests in #if / #ifdef / #ifndef (other than the back-end selection and the macros its base
+    configuration already defines) gives further configurations of that file: each macro alone, and all together"""
+    found = {}
+    for arch, a in list(ARCH.items()):
+        if '-' in arch or a['cls'] == 'Avr': continue
+        src = '%s/src/core/%s' % (REPO, a['file'])
+        try: text = open(src).read()
+        except OSError: continue
+        names = set()
+        for line in text.split('\n'):
+            if not re.match(r'^\s*#\s*(if|ifdef|ifndef|elif)\b', line): continue
+            names |= set(re.findall(r'defined\s*\(\s*(\w+)\s*\)', line))
+            m = re.match(r'^\s*#\s*ifn?def\s+(\w+)', line)
+            if m: names.add(m.group(1))
+        base = set(d[2:].split('=')[0] for d in a['defs'])
+        names = sorted(n for n in names if not n.startswith('ASCON_') and n not in base and n not in ('__APPLE__', '__CYGWIN__', '_WIN32', '_WIN64', '__ELF__'))
+        combos = [[n] for n in names] + ([names] if len(names) > 1 else [])
+        for combo in combos:
+            key = arch + '-' + '+'.join(n.strip('_').lower() for n in combo)
+            if any(set(v['defs']) == set(a['defs'] + ['-D%s=1' % n for n in combo]) or set(v['defs']) == set(a['defs'] + ['-D%s' % n for n in combo]) for v in ARCH.values() if v['file'] == a['file']): continue
+            found[key] = dict(a, defs=a['defs'] + ['-D%s=1' % n for n in combo])
+    return found
+
+
 def preprocess(arch):
     a = ARCH[arch]
     src = '%s/src/core/%s' % (REPO, a['file'])
@@ -296,6 +321,13 @@ class RiscV(Machine):
         elif mn == 'and': self.wr(o[0], self.rd(o[1]) & self.rd(o[2]))
         elif mn == 'or': self.wr(o[0], self.rd(o[1]) | self.rd(o[2]))
         elif mn == 'not': self.wr(o[0], ~self.rd(o[1]))
+        elif mn == 'andn': self.wr(o[0], self.rd(o[1]) & ~self.rd(o[2]))
+        elif mn == 'orn': self.wr(o[0], self.rd(o[1]) | (~self.rd(o[2]) & self.mask))
+        elif mn == 'xnor': self.wr(o[0], ~(self.rd(o[1]) ^ self.rd(o[2])))
+        elif mn in ('rori', 'ror', 'rol'):
+            v = self.rd(o[1]); sh = (int(o[2], 0) if mn == 'rori' else self.rd(o[2])) % B
+            if mn == 'rol': sh = (B - sh) % B
+            self.wr(o[0], ((v >> sh) | (v << (B - sh))) & self.mask if sh else v)
         elif mn == 'xori': self.wr(o[0], self.rd(o[1]) ^ self.sx(o[2]))
         elif mn == 'addi': self.wr(o[0], self.rd(o[1]) + self.sx(o[2]))
         elif mn == 'li': self.wr(o[0], int(o[1], 0))
@@ -682,7 +714,7 @@ class Xtensa(Machine):
         self.ar[1] = self.STACK; self.ar[2] = self.STATE; self.ar[3] = (r | (dirty << 8)) & M32; self.ar[0] = 0xdead0000
         self.saved0 = list(self.ar); self.sar = 0
         self.frame_low = self.STACK - 256
-        self.windowed = '-D__XTENSA_WINDOWED_ABI__' in self.a['defs']
+        self.windowed = any(d.startswith('-D__XTENSA_WINDOWED_ABI__') for d in self.a['defs'])
         self.entry = None
 
     def cur_sp(self): return self.ar[1]
@@ -1009,6 +1041,9 @@ def machine(arch):
 def events(c, ev, sts, arches=None):
     """called by checks/c18.py: one asm.permute event per (architecture, starting round, state)"""
     done = []
+    extra = discover_variants()
+    ARCH.update(extra)
+    c.cov['discovered_configurations'] = sorted(extra)
     for arch in (arches or list(ARCH)):
         try:
             m = machine(arch)
